@@ -132,6 +132,10 @@ class ShellProgram:
         # differently and contrasting assignments - from shared PortSelect objects and one
         # shared Builder: a history that must not leak into this build
         self.warm = True
+        # how the application around the shell is built is the user's choice: a development
+        # build, or the release build projects ship (CMake's Release configurations define
+        # NDEBUG and optimise) - what the shell does may not depend on it
+        self.release = False
 
     def generate(self) -> bool:
         """Run dznpy's builder and write all sources."""
@@ -142,7 +146,10 @@ class ShellProgram:
         warmups = (shellbuild.equivalent_spellings(self.enc, self.info['provides'],
                                                    self.info['requires']) +
                    shellbuild.contrasting_configs(self.enc)) if self.warm else None
-        res = shellbuild.outcome(self.enc, M.to_json(self.gen.model), warmups=warmups)
+        doc = M.to_json(self.gen.model)
+        # earlier revisions of the same project were parsed and built in this process before
+        res = shellbuild.outcome(self.enc, doc, warmups=warmups,
+                                 siblings=shellbuild.revisions_of(doc) if self.warm else None)
         if 'files' not in res:
             self.build_exc = res['exc']
             return False
@@ -159,8 +166,11 @@ class ShellProgram:
 
     def compile(self, flavor: str = 'plain') -> bool:
         exe = os.path.join(self.dir, f'prog_{flavor}')
+        extra = None
+        if self.release:
+            extra = ['-O2', '-DNDEBUG'] if flavor in ('plain', 'clang') else ['-DNDEBUG']
         rc, err = compile_link(self.dir, ['main.cc', shellbuild.shell_name(self.enc) + '.cc'],
-                               exe, flavor)
+                               exe, flavor, extra)
         self.compile_err = err
         if rc == 0:
             self.exe[flavor] = exe
